@@ -163,6 +163,8 @@ PROPS = {
         'trusted': ['Checksum is driven through add()/reset()/value()/matches() only'],
     },
     'C07': {
+        'source_transfer': ['TransferTypes'],
+        'source_tie': ['Types'],
         'jobs': [{'component': 'fields', 'profile': 'decode', 'quick': 30, 'thorough': 400},
                  {'component': 'ch', 'profile': 'all-text', 'quick': 1, 'thorough': 1},
                  {'component': 'ch', 'profile': 'random', 'quick': 500, 'thorough': 5000},
@@ -177,6 +179,8 @@ PROPS = {
         'assumptions': ['well-formed = exactly the prescribed length (R6), text ranges well-formed UTF-8 (R5)'],
     },
     'C08': {
+        'source_transfer': ['TransferTypes'],
+        'source_tie': ['Types'],
         'jobs': [{'component': 'fields', 'profile': 'decode', 'quick': 30, 'thorough': 400},
                  {'component': 'ch', 'profile': 'all-text', 'quick': 1, 'thorough': 1},
                  {'component': 'ch', 'profile': 'random', 'quick': 500, 'thorough': 5000},
